@@ -173,7 +173,7 @@ def run(rep, tier, seed):
             if len(samples) < 2:
                 samples.append({"history": [tname(P[j]) for j in order], "config": str(cfg)})
     # ---- immutability: replace / extend
-    nim = immutability(rep, r)
+    nim = immutability(rep, r) + dump_and_convert_histories(rep, tier)
     rep.cov.update({
         "evaluations": n + nim, "distinct_nontrivial": len(P) * (len(P) - 1),
         "rule": f"pool of {len(P)} mutually confusable types (Literal 0/1 vs False/True, -1 vs -2, str vs bytes vs enum literals, "
@@ -187,6 +187,103 @@ def run(rep, tier, seed):
     })
     import loadgen as lg
     lg.proof_problems(rep, PID, proof)
+
+
+@dataclass
+class Ev:
+    id: int
+
+
+@dataclass
+class UserEv(Ev):
+    actor: str = "u"
+
+
+@dataclass
+class AudEv(Ev):
+    audit: int = 0
+
+
+@dataclass
+class AudUserEv(UserEv, AudEv):
+    pass
+
+
+def dump_and_convert_histories(rep, tier):
+    """(a) dumping through unions of classes of one hierarchy (with a diamond): the dumper chosen for a value's class must
+    not depend on which other classes went through the same dumper before; every sequence of 2-3 values on one retort and on
+    one dumper obtained with get_dumper, each result compared with a fresh retort's.  (b) converters: every sequence of 2-3
+    calls among convert / get_converter with no recipe and with two different per-call recipes on one retort, each result
+    compared with the same call on a fresh retort."""
+    import adaptix.conversion as conv
+    from adaptix import Retort
+    from adaptix.conversion import coercer, link_constant
+    from adaptix import P as _P
+    n = 0
+    vals = [Ev(1), UserEv(2, "bob"), AudEv(3, 7), AudUserEv(id=4, actor="eve", audit=9)]
+    unions = [Union[Ev, AudEv], Union[Ev, UserEv], Union[UserEv, AudEv, int], Union[Ev, AudEv, UserEv], Union[AudEv, str]]
+    for U in unions:
+        fresh = [outcome(lambda v=v: Retort().dump(v, U)) for v in vals]
+        seqs = list(itertools.permutations(range(len(vals)), 2)) + list(itertools.permutations(range(len(vals)), 3))
+        if tier == "quick":
+            seqs = seqs[::2]
+        bad = False
+        for seq in seqs:
+            for via in ("retort", "dumper"):
+                rt = Retort()
+                f = (lambda v: rt.dump(v, U)) if via == "retort" else rt.get_dumper(U)
+                for k in seq:
+                    n += 1
+                    got = outcome(lambda k=k: f(vals[k]))
+                    if got != fresh[k] and not bad:
+                        bad = True
+                        rep.violation(f"dump-history:{tname(U)[:40]}", "property-violated",
+                                      {"what": f"dump({vals[k]!r}, {tname(U)}) after dumping {[repr(vals[j]) for j in seq[:seq.index(k)]]} "
+                                               f"through the same {via} gives {got}; a fresh retort gives {fresh[k]}"})
+
+    @dataclass
+    class S:
+        a: int
+        b: int = 5
+
+    @dataclass
+    class D:
+        a: str
+        b: int = 6
+
+    @dataclass
+    class D2:
+        a: int
+        b: int = 6
+    R1 = [coercer(int, str, lambda v: f"<{v}>")]
+    R2 = [coercer(int, str, lambda v: f"[{v}]"), link_constant(_P[D].b, value=77)]
+    R3 = [link_constant(_P[D2].b, value=88)]
+    calls = {
+        "convert(S,D)": lambda rt: rt.convert(S(1), D),
+        "convert(S,D,recipe=R1)": lambda rt: rt.convert(S(1), D, recipe=R1),
+        "convert(S,D,recipe=R2)": lambda rt: rt.convert(S(1), D, recipe=R2),
+        "get_converter(S,D)": lambda rt: rt.get_converter(S, D)(S(1)),
+        "get_converter(S,D,recipe=R1)": lambda rt: rt.get_converter(S, D, recipe=R1)(S(1)),
+        "get_converter(S,D,recipe=R2)": lambda rt: rt.get_converter(S, D, recipe=R2)(S(1)),
+        "convert(S,D2)": lambda rt: rt.convert(S(1), D2),
+        "convert(S,D2,recipe=R3)": lambda rt: rt.convert(S(1), D2, recipe=R3),
+        "get_converter(S,D2)": lambda rt: rt.get_converter(S, D2)(S(1)),
+        "get_converter(S,D2,recipe=R3)": lambda rt: rt.get_converter(S, D2, recipe=R3)(S(1)),
+    }
+    fresh = {k: outcome(lambda f=f: f(conv.ConversionRetort())) for k, f in calls.items()}
+    names = list(calls)
+    seqs = list(itertools.permutations(names, 2)) + ([] if tier == "quick" else list(itertools.permutations(names, 3)))
+    reported = set()
+    for seq in seqs:
+        rt = conv.ConversionRetort()
+        for i, k in enumerate(seq):
+            n += 1
+            got = outcome(lambda k=k: calls[k](rt))
+            if got != fresh[k] and k not in reported:
+                reported.add(k)
+                rep.violation(f"convert-history:{k}", "property-violated",
+                              {"what": f"{k} after {list(seq[:i])} on one retort gives {got}; a fresh retort gives {fresh[k]}"})
+    return n
 
 
 def immutability(rep, r):
